@@ -41,6 +41,15 @@ def output_calls(calls, root):
                     written.add(path)
                     res.append(("write", path, 1))
             continue
+        if name == "fchmod":
+            # traced with -y: fchmod(3</abs/path>, 0755): giving an output file its recorded mode is part of writing it
+            # (seeded C18-h: a failing fchmod was swallowed, the script lost its execute bit and the push said 0)
+            m = re.match(r"\d+<([^>]*)>", args)
+            if m and ret >= 0 and m.group(1).startswith(root + "/"):
+                path = os.path.normpath(m.group(1)[len(root) + 1:])
+                seen[(name, path)] += 1
+                res.append((name, path, seen[(name, path)]))
+            continue
         if name not in ("openat", "open", "creat", "unlink", "unlinkat", "mkdir", "mkdirat", "rmdir"):
             continue
         m = PATHRE.search(args)
@@ -172,6 +181,15 @@ def run(ctx):
             # that happens to save the file, so with several threads only calls that are the first of their kind on
             # their path in the whole process can be targeted (reject, backup opens; unlink; first mkdir; writes)
             positions = [p_ for p_ in positions if p_[2] == 1]
+        if single:
+            # "single" promises that the order of saving is fixed; the patches of the workspace may still create or touch
+            # a second file (the tree was cut down to one file, the patches were not) - then two files are saved in
+            # the order of a HashMap, which the model does not fix: no exact tree comparison for such a run
+            saved = {p_[1] for p_ in positions if p_[0] in ("openat", "unlink")
+                     and not p_[1].startswith(".pc/") and not p_[1].endswith(".rej")}
+            if len(saved) > 1:
+                single = False
+                hist["single-file workspace whose patches save a second file: no exact tree comparison"] += 1
         total_pos += len(positions)
         hist["output calls per run: %d" % min(len(positions) // 5 * 5, 40)] += 1
         # model: every fault position
